@@ -68,6 +68,17 @@ CLAIMS = {
         note="Trusted: TLC, the scenario driver (harness/zcv/scenario.py, props/c05.py). Bounded: sequences <= 3 over 18 steps and "
              "<= 4 over 10 steps (quick), <= 4 / <= 6 (thorough); %include targets resolved by the harness.",
         technique="TLA+ loader spec run by TLC on exhaustively enumerated define/use/include histories; outcomes replayed on the code"),
+    "C06": dict(
+        text="For base texts (valid, damaged, with definitions and uses) of the schema family and 1..3 balanced cuts each "
+             "(nested, same/sub/parent directory, references also written through a definition, the same fragment included "
+             "twice), TLC runs the loader specification on the cut scenario and - by self-composition with the big-step form of "
+             "the same step function - on the inlined text, checking TwinSameOutcome, LIFO open/close of resources and that an "
+             "unbalanced fragment is rejected; both variants are materialised as real files (with decoy files where a wrong base "
+             "URL would resolve) and the real outcomes compared with each other and with the specification.",
+        design="3 (C06)",
+        note="Trusted: TLC, scenario driver (scenario.py, props/c06.py); relative references are resolved by the harness for the "
+             "specification (URL arithmetic itself is C18). Random corpus (200 base texts x 11 schemas quick).",
+        technique="TLA+ loader spec, self-composition (include vs inline) checked by TLC; both scenarios replayed on the code with real files"),
 }
 
 NOT_YET = "check not built yet (construction order in DESIGN.md section 8)"
